@@ -285,6 +285,10 @@ impl<'tokens> Parser<'tokens> {
     }
 
     pub(crate) fn bump(&mut self) {
+        // the sink skips trivia before it adds a token, so the parser must do the same,
+        // otherwise a `bump` which directly follows another `bump` can land on whitespace
+        // and the two of them disagree about which token is being added
+        self.skip_trivia();
         #[cfg(capy_verif)]
         self.bump_log.push(self.token_idx);
         self.clear_expected_syntaxes();
